@@ -210,7 +210,7 @@ mod inherit {
 	}
 }
 
-//# {"id":"c06_inheritance_order","module":"c06_remap::inherit_proofs","props":["C06"],"tier":"quick","cap":1500,"bound":"member remapper built from explicit tables (hook b_remapper_from_parts): hierarchy C -> [P, Q] in either order; every subset of {C, P, Q} declaring f:I (16 configurations, symbolic); model indexmap; unwind 8","fns":["quill::remapper::BRemapperImpl::map_field_fail","BRemapper::map_field","TupleReq/TupleKey Equivalent"]}
+//# {"id":"c06_inheritance_order","module":"c06_remap::inherit_proofs","props":["C06"],"tier":"thorough","cap":3600,"bound":"member remapper built from explicit tables (hook b_remapper_from_parts): hierarchy C -> [P, Q] in either order; every subset of {C, P, Q} declaring f:I (16 configurations, symbolic); model indexmap; unwind 8","fns":["quill::remapper::BRemapperImpl::map_field_fail","BRemapper::map_field","TupleReq/TupleKey Equivalent"]}
 //# {"id":"c06_inheritance_search","module":"c06_remap::inherit_proofs","props":["C06"],"tier":"thorough","cap":3600,"bound":"member remapper built from explicit tables (hook b_remapper_from_parts): hierarchy C -> [P, Q] (either order), P -> [G]; every subset of {C, P, Q, G} declaring f:I, P mapped or not, C known to the inheritance provider or not (128 configurations, symbolic); model indexmap; unwind 8","fns":["quill::remapper::BRemapperImpl::{map_field_fail}","BRemapper::map_field","TupleReq/TupleKey Equivalent"]}
 pub mod inherit_proofs {
 	use crate::proofs;
